@@ -16,6 +16,8 @@ CONTROLS = {
     ('C02', 'R2'): ['swallow_send|swallowed', 'neutralise_send|swallowed'],
     ('C20', 'R3'): ['ignore_join|join-unchecked'],
     ('C02', 'R8'): ['lossy_forward|lossy-send'],
+    ('C02', 'R9'): ['forward_tail_first|tail-first'],
+    ('C16', 'R5'): ['forward_tail_first|tail-first'],
 }
 
 
